@@ -525,10 +525,14 @@ def gen_mc_case(rng, small=False):
                      'er': rng.choice([None, None, (1, 9), (3, 12), (0, 5)]),
                      'gamma': rng.choice([1, 2, 2, 3]), 'phi0_e': rng.choice([-2, 0, 1, 3]),
                      'batch': rng.choice([1, 2, 128])})
+    all_weighted = all(all(s_['w'] is not None for s_ in h_['srcs']) for h_ in shgs)
     return {'part': 'B', 'dss': dss, 'shgs': shgs, 'n_signal': rng.choice([0, 1, 2, 3, 5, 8, 13, 21, 34, 50]),
             'reject': rng.choice([0, 20, 50, 80, 90, 95, 95]), 'range_on_dec': rng.random() < 0.3,
             'aim_seed': rng.randrange(2 ** 31), 'poisson': rng.random() < 0.3, 'alt_shgs': None,
-            'reloc_field': None, 'reloc_reject': 25}
+            'reloc_field': None, 'reloc_reject': 25,
+            # non-dyadic physical units: the model works with the integer multiples, the common factors cancel
+            'mw_unit': rng.choice([1.0, 0.1, 1e-7, 1 / 3]), 'lt_unit': rng.choice([1.0, 0.3, 365.25 / 7]),
+            'sw_unit': rng.choice([1.0, 1 / 3, 0.7]) if all_weighted else 1.0}
 
 
 def build_mc(env, case):
@@ -544,7 +548,7 @@ def build_mc(env, case):
         data = {
             'sin_true_dec': sd, 'true_dec': true_dec,
             'true_energy': np_.array([2.0 ** e['en'] for e in evs]),
-            'mcweight': np_.array([float(e['mw']) for e in evs]),
+            'mcweight': np_.array([float(e['mw']) for e in evs]) * case.get('mw_unit', 1.0),
             'true_ra': np_.array([e['true_ra'] for e in evs]),
             'ra': np_.array([e['ra'] for e in evs]),
             'dec': np_.clip(true_dec + np_.array([e['ddec'] for e in evs]), -1.55, 1.55),
@@ -552,7 +556,8 @@ def build_mc(env, case):
             'q': np_.array([float(e['q']) for e in evs]),
         }
         data['sin_dec'] = np_.sin(data['dec'])
-        datal.append(env.DatasetData(data_exp=None, data_mc=env.DataFieldRecordArray(data), livetime=float(d['lt'])))
+        datal.append(env.DatasetData(data_exp=None, data_mc=env.DataFieldRecordArray(data),
+                                      livetime=float(d['lt']) * case.get('lt_unit', 1.0)))
         num_dss.append({'sd': [e['sdk'] * 2 ** (SD_BITS - 20) for e in evs], 'en': [2 ** e['en'] for e in evs],
                         'mw': [e['mw'] for e in evs], 'lt': d['lt']})
     shg_objs, num_shgs = [], []
@@ -572,13 +577,15 @@ def build_mc(env, case):
                 xs.append(sc(xf, SD_BITS))
             except ValueError:
                 return None
-            srcs.append(env.PointLikeSource(ra=s['ra'], dec=dec, weight=s['w']))
+            srcs.append(env.PointLikeSource(ra=s['ra'], dec=dec,
+                                            weight=None if s['w'] is None else s['w'] * case.get('sw_unit', 1.0)))
         fm = env.SteadyPointlikeFFM(
             Phi0=2.0 ** h['phi0_e'],
             energy_profile=env.PowerLawEnergyFluxProfile(E0=1, gamma=h['gamma'], cfg=env.cfg), cfg=env.cfg)
-        meth = env.PointLikeSourceI3SignalGenerationMethod(
-            src_sin_dec_half_bandwidth=hw, energy_range=None if h['er'] is None else (2.0 ** h['er'][0], 2.0 ** h['er'][1]),
-            src_batch_size=h['batch'])
+        kw_ = {} if h['batch'] == 128 else {'src_batch_size': h['batch']}      # 128 is the default: not passed
+        if h['er'] is not None:
+            kw_['energy_range'] = (2.0 ** h['er'][0], 2.0 ** h['er'][1])
+        meth = env.PointLikeSourceI3SignalGenerationMethod(src_sin_dec_half_bandwidth=hw, **kw_)
         shg_objs.append(env.SourceHypoGroup(sources=srcs, fluxmodel=fm, detsigyield_builders=[], sig_gen_method=meth))
         flux = {}
         for k in range(0, 13):
@@ -643,7 +650,7 @@ def mc_term(case, built, post_tab, stream, fuel, ranges_pos):
     return (f'let shgs := {shgs} in let dss := {dss} in '
             f'match construct shgs dss with '
             f'| Err e => (Err e, Err e) '
-            f'| Ok tbl => (Ok (map (fun c => (c_ds c, c_ev c, c_shg c, c_src c, c_wn c, c_wd c)) tbl), '
+            f'| Ok tbl => (Ok (combine (map (fun c => (c_ds c, c_ev c, c_shg c, c_src c, c_wn c, c_wd c)) tbl) (samp_w tbl)), '
             f'match mc_init {shgs0} dss with Err e => Err e | Ok st0 => '
             f'match mc_run _ stream_choice (assoc4 {pt}) (fun g m => ({n}, g)) {fuel} st0 (map (map Z.to_nat) {st}) {ops} with '
             f'| Ok (st, g, [(n, out)]) => if andb (forallb (fun ab => andb (c_wn (fst ab) =? c_wn (snd ab)) (andb (c_ev (fst ab) =? c_ev (snd ab)) (c_src (fst ab) =? c_src (snd ab)))) (combine (g_tbl st) tbl)) (Nat.eqb (length (g_tbl st)) (length tbl)) '
@@ -740,6 +747,20 @@ def run_mc_case(ctx, env, case, exprs, checks):
                      quant(ev['sin_dec'][n_])]
                 post_tab[(di, hi, impl_tbl[i][3], impl_tbl[i][1])] = v
                 vec_of[i] = (v, {'ra': float(ev['ra'][n_]), 'dec': float(ev['dec'][n_]), 'sin_dec': float(ev['sin_dec'][n_])})
+    # the relocation oracle itself: every candidate is relocated to ITS OWN source (offset true->reco preserved
+    # w.r.t. the source of the candidate, not just any source that has the event in its band)
+    for i, (v_, fl_) in vec_of.items():
+        (di_, evi_, hi_, ki_) = impl_tbl[i]
+        e_ = case['dss'][di_]['events'][evi_]
+        tdec_ = math.asin(e_['sdk'] / 2 ** 20)
+        rdec_ = min(1.55, max(-1.55, tdec_ + e_['ddec']))
+        src_ = built['shgs'][hi_].source_list[ki_]
+        if abs(hav_sep(float(src_.ra), float(src_.dec), fl_['ra'], fl_['dec'])
+               - hav_sep(e_['true_ra'], tdec_, e_['ra'], rdec_)) > 1e-7:
+            ctx.violation('signal_event_post_sampling_processing', 'candidate-not-relocated-to-its-own-source',
+                          f'candidate {impl_tbl[i]}', case=case,
+                          predicate='sep(source of the candidate, relocated reco) == sep(true, reco)')
+            break
     # validity range on a field that the relocation CHANGES (dec / ra / sin_dec): a window of the relocated values
     # of the positive candidates, bounds >= 1e-6 away from every relocated value (the raw MC values of the same
     # field are unrelated to the window, so masking before relocating lets invalid events through)
@@ -840,6 +861,13 @@ def run_mc_case(ctx, env, case, exprs, checks):
                     ctx.violation(site + '.generate_signal_events', 'invalid-event-returned',
                                   f'event {v} of dataset {k} violates {rd}', case=case,
                                   predicate='every injected event satisfies the validity ranges')
+                own = [i for i, (v_, _) in vec_of.items() if impl_tbl[i][0] == k and impl_tbl[i][1] == evid
+                       and float(tbl[i]['weight']) > 0 and v_[:2] == v[:2]
+                       and all(abs(a_ - b_) <= 4 for a_, b_ in zip(v_[2:], v[2:]))]
+                if cands and not own:
+                    ctx.violation(site + '.generate_signal_events', 'event-is-not-the-relocation-of-a-candidate',
+                                  f'event {v} of dataset {k} equals the relocated image of none of its candidates',
+                                  case=case, predicate='every event is its candidate relocated to that candidate\'s source')
                 if e is None or not cands:
                     ctx.violation(site + '.generate_signal_events', 'event-not-from-a-positive-candidate',
                                   f'event {v} of dataset {k}: no positive-weight source has it in band and energy range',
@@ -870,7 +898,8 @@ def run_mc_case(ctx, env, case, exprs, checks):
         bad = (np.max(np.abs(f3 - 3 * f1)) > 1e-9 * scale or abs(t3 - 3 * t1) > 1e-9 * scale or
                abs(t4 - (t1 + t3)) > 1e-9 * scale or abs(float(np.sum(f1)) - t1) > 1e-9 * scale)
         # closed form: mu * (sum of the normalised weights of the source) * Phi0 * unit / ref_N
-        refN = float(tot) * env.time_factor / (4 * math.pi) * 2 ** SD_BITS / 2 ** FLUX_BITS
+        refN = (float(tot) * env.time_factor / (4 * math.pi) * 2 ** SD_BITS / 2 ** FLUX_BITS
+                * case.get('mw_unit', 1.0) * case.get('lt_unit', 1.0) * case.get('sw_unit', 1.0))
         if abs(refN - float(gen._sig_candidates_weight_sum)) > 1e-9 * refN:
             ctx.violation(site + '._construct_signal_candidates', 'wrong-weight-sum',
                           f'{float(gen._sig_candidates_weight_sum)} vs {refN}', case=case,
@@ -906,14 +935,20 @@ def compare_mc(ctx, case, impl_all, v):
     if not (isinstance(t, tuple) and t[0] == 'Ok'):
         ctx.disagree(site + '.construct', case, impl_tbl[:20], repr(t)[:200])
         return
-    mt = [tuple(c) for c in t[1]]
+    mt = [tuple(c[:6]) for c in t[1]]       # Coq prints ((a, .., f), p) as one 7-tuple
+    mp = [c[6] for c in t[1]]
     if [c[:4] for c in mt] != impl_tbl:
         ctx.disagree(site + '.construct', case, impl_tbl[:60], [c[:4] for c in mt][:60],
                      detail='candidate tables differ (keys or order)')
         return
     tot = sum(Fraction(c[4], c[5]) for c in mt)
-    for c, w in zip(mt, impl_w):
+    ptot = sum(mp)
+    for c, w, pi in zip(mt, impl_w, mp):
         mw = float(Fraction(c[4], c[5]) / tot)
+        if ptot <= 0 or abs(float(Fraction(pi, ptot)) - w) > 1e-9 * (1 + w):
+            ctx.disagree(site + '.sampler', case, w, float(Fraction(pi, ptot)) if ptot > 0 else None,
+                         detail=f'sampler probability of candidate {c[:4]}')
+            return
         if abs(mw - w) > 1e-9 * (1 + w) or ((c[4] == 0) != (w == 0.0)):
             ctx.disagree(site + '.construct', case, w, mw, detail=f'weight of candidate {c[:4]}')
             return
@@ -1032,9 +1067,10 @@ class McSetup:
         env = self.env
         b = build_mc(env, self.case)
         n_ds = len(self.case['dss'])
+        rl = [dict(r) for r in self.ranges]
         gen = env.MCMultiDatasetSignalGenerator(
             cfg=env.cfg, shg_mgr=env.SourceHypoGroupManager(b['shgs']), dataset_list=env.dsl[:n_ds],
-            data_list=b['datal'], valid_event_field_ranges_dict_list=[dict(r) for r in self.ranges],
+            data_list=b['datal'], valid_event_field_ranges_dict_list=rl if any(rl) else None,   # None = the default
             ds_sig_weight_factors_service=env.StubW2())
         return gen, b
 
@@ -1222,7 +1258,7 @@ def probe_mc(ctx, env, rng, case_a, case_b, alt_shgs):
     if r4[0][0] == 'Ok':
         check_events(ctx, A2, bA, live4[0], m1, r4[0][1], 'set-ranges')
     # -- mutate then observe: change_shg_mgr (other sources on the same datasets)
-    case_c = dict(case_a, shgs=alt_shgs)
+    case_c = dict(case_a, shgs=alt_shgs, sw_unit=1.0)
     C = McSetup(env, case_c, 0)
     if not C.ok:
         ctx.count('C:skipped-alt-sources')
@@ -1409,6 +1445,190 @@ def compare_reloc(ctx, case, impl, v):
         ctx.disagree('signal_generation.post_process', case, impl, m)
 
 
+# =========================================================================== part E: the calling sites
+def probe_analysis(ctx, env, rng, exprs, checks):
+    """Analysis.generate_signal_events (observe_at site) on a real MC generator: the unbound method with a
+    minimal stand-in for `self` (n_datasets, _sig_generator and the real argument check)"""
+    import types
+    from skyllh.core.analysis import Analysis
+    site = 'Analysis.generate_signal_events'
+    done = tries = 0
+    while done < ctx.budget(6, 40) and tries < 60:
+        tries += 1
+        case = gen_mc_case(rng, small=True)
+        st = McSetup(env, case, rng.choice([0, 30]))
+        if not st.ok:
+            continue
+        done += 1
+        n_ds = len(case['dss'])
+        gen, b = st.fresh()
+        me = types.SimpleNamespace(n_datasets=n_ds, _sig_generator=gen)
+        me._assert_input_arguments_of_generate_signal_events = types.MethodType(
+            Analysis._assert_input_arguments_of_generate_signal_events, me)
+        mean = rng.choice([0, 1, 5, 13, 30])
+        seed = rng.randrange(2 ** 31)
+        pre_n = [rng.choice([0, 3, 17]) for _ in range(n_ds)]
+        pre_e = []
+        for j in range(n_ds):
+            if rng.random() < 0.5:
+                pre_e.append(None)
+            else:
+                pre_e.append(b['datal'][j].mc[np.arange(rng.choice([1, 2]))].copy())
+        pre_ids = [None if e is None else [int(x) + 1000 for x in e['evid']] for e in pre_e]
+        for e in pre_e:
+            if e is not None:
+                e['evid'] = e['evid'] + 1000
+        ctx.case({'part': 'E', 'seed': seed, 'mean': mean, 'case': case['aim_seed']})
+        ctx.count('E:analysis-calls')
+        rss = env.RandomStateService(1)
+        rss.random = CountingRandom(seed)
+        try:
+            (n_sig, nl, el) = Analysis.generate_signal_events(me, rss, mean, {'poisson': False},
+                                                              n_events_list=list(pre_n), events_list=list(pre_e))
+            got = ['Ok', int(n_sig), [int(x) for x in nl], [None if e is None else [int(x) for x in e['evid']] for e in el]]
+        except Exception as ex:  # noqa: BLE001
+            got = ['Err', type(ex).__name__]
+        # the twin: the generator alone, same seed
+        g2, _ = st.fresh()
+        rss2 = env.RandomStateService(1)
+        rss2.random = CountingRandom(seed)
+        d2 = {} if mean == 0 else g2.generate_signal_events(rss2, mean, poisson=False)[1]
+        dlist = [(int(k), [int(x) for x in d2[k]['evid']]) for k in d2]
+        want_n = list(pre_n)
+        want_e = [None if x is None else list(x) for x in pre_ids]
+        for k, ids in dlist:
+            want_n[k] += len(ids)
+            want_e[k] = (want_e[k] or []) + ids
+        want = ['Ok', mean, want_n, want_e]
+        c_ = {'part': 'E', 'case': case, 'mean': mean, 'seed': seed, 'pre_n': pre_n, 'pre_ids': pre_ids}
+        if got != want:
+            ctx.violation(site, 'injected-events-differ', f'{str(got)[:300]} instead of {str(want)[:300]}', case=c_,
+                          impl=got, predicate='n_sig == events added to the event lists == increase of the counters')
+        evs_t = '[' + '; '.join('None' if x is None else 'Some ' + zlist(x) for x in pre_ids) + ']'
+        dt = '[' + '; '.join(f'({k}, {zlist(ids)})' for k, ids in dlist) + ']'
+        exprs.append(f'an_generate nat Z (fun g m => Ok (m, {dt}, g)) {n_ds} 0%nat {mean} {zlist(pre_n)} {evs_t}')
+        checks.append(('analysis', c_, got))
+
+
+def compare_analysis(ctx, case, impl, v):
+    if isinstance(v, tuple) and v[0] == 'Ok':
+        n, ns, evs, _g = v[1]
+        m = ['Ok', n, list(ns), [None if e == 'None' else list(e[1]) for e in evs]]
+    elif isinstance(v, tuple) and v[0] == 'Err':
+        m = ['Err', v[1]]
+    else:
+        m = ['unparsed', repr(v)[:200]]
+    if m != impl:
+        ctx.disagree('analysis.an_generate', {k: case[k] for k in ('mean', 'seed', 'pre_n', 'pre_ids')}, impl, m)
+
+
+def probe_multi_change(ctx, env, rng):
+    """MultiDatasetSignalGenerator.change_shg_mgr with real MC generators (and a None) as per-dataset generators:
+    every one of them must be rebuilt for the new sources"""
+    from skyllh.core.signal_generator import MultiDatasetSignalGenerator
+    site = 'MultiDatasetSignalGenerator.change_shg_mgr'
+    done = tries = 0
+    while done < ctx.budget(3, 15) and tries < 60:
+        tries += 1
+        case = gen_mc_case(rng, small=True)
+        alt = dict(case, shgs=gen_mc_case(rng, small=True)['shgs'], sw_unit=1.0)
+        b0, b1 = build_mc(env, case), build_mc(env, alt)
+        if b0 is None or b1 is None:
+            continue
+        n_ds = len(case['dss'])
+        subs, ok = [], True
+        for j in range(n_ds):
+            br0, m0 = brute_candidates(b0['num_dss'][j:j + 1], b0['num_shgs'])
+            br1, m1 = brute_candidates(b1['num_dss'][j:j + 1], b1['num_shgs'])
+            if (not br0 or not br1 or m0 < 1e-9 or m1 < 1e-9 or not any(c['wn'] > 0 for c in br0)
+                    or not any(c['wn'] > 0 for c in br1)):
+                ok = False
+                break
+            subs.append(br1)
+        if not ok:
+            continue
+        done += 1
+        ctx.count('E:multi-change_shg_mgr')
+        ctx.case({'part': 'E', 'multi-change': case['aim_seed']})
+        mgr0 = env.SourceHypoGroupManager(b0['shgs'])
+        mgr1 = env.SourceHypoGroupManager(b1['shgs'])
+        try:
+            gens = [env.MCMultiDatasetSignalGenerator(cfg=env.cfg, shg_mgr=mgr0, dataset_list=env.dsl[j:j + 1],
+                                                      data_list=b0['datal'][j:j + 1],
+                                                      ds_sig_weight_factors_service=env.StubW2()) for j in range(n_ds)]
+            gens.insert(rng.randrange(len(gens) + 1), None)          # None entries are skipped
+            top = MultiDatasetSignalGenerator(shg_mgr=mgr0, dataset_list=env.dsl[:len(gens)],
+                                              data_list=(b0['datal'] * 2)[:len(gens)], sig_generator_list=gens,
+                                              ds_sig_weight_factors_service=env.StubW2(), cfg=env.cfg)
+            top.change_shg_mgr(mgr1)
+        except Exception as ex:  # noqa: BLE001
+            ctx.violation(site, 'raises-' + type(ex).__name__, str(ex)[:200], case={'part': 'E', 'case': case})
+            continue
+        real = [g for g in gens if g is not None]
+        for j, (g, br1) in enumerate(zip(real, subs)):
+            keys = sorted((int(r['ev_idx']), int(r['shg_idx']), int(r['shg_src_idx'])) for r in g._sig_candidates)
+            want = sorted((c['ev'], c['shg'], c['src']) for c in br1)
+            if g.shg_mgr is not mgr1 or keys != want or sampler_consistent(g) is False:
+                ctx.violation(site, 'per-dataset-generator-not-updated',
+                              f'generator of dataset {j} still serves the old sources', case={'part': 'E', 'case': case, 'alt': alt['shgs']},
+                              predicate='change_shg_mgr reaches every per-dataset generator')
+                break
+
+
+def probe_large_mc(ctx, env, rng):
+    """one MC set larger than the range of a narrow index dtype (uint8 / int16): candidate rows must still point
+    at the right MC events"""
+    for n_ev in ([300] if not ctx.thorough() else [300, 33000]):
+        for _try in range(6):
+            case = gen_mc_case(rng, small=True)
+            case['dss'] = case['dss'][:1]
+            d = case['dss'][0]
+            d['lt'] = 2
+            base = d['events']
+            lo, hi = min(e['sdk'] for e in base), max(e['sdk'] for e in base)
+            d['events'] = base + [{'sdk': rng.randint(lo, hi), 'en': rng.randint(0, 12), 'mw': rng.choice([1, 2, 3]),
+                                   'true_ra': rng.random() * 6.28, 'ra': rng.random() * 6.28,
+                                   'ddec': rng.gauss(0, 0.03), 'q': rng.randint(0, 99)} for _ in range(n_ev - len(base))]
+            case['shgs'] = case['shgs'][:1]
+            case['shgs'][0]['srcs'] = [dict(s, pos='inside') for s in case['shgs'][0]['srcs'][:2]]
+            case['shgs'][0]['hw_k'] = 2 ** 14 if n_ev > 1000 else case['shgs'][0]['hw_k']
+            st = McSetup(env, case, 0)
+            if st.ok and any(c['ev'] > 255 and c['wn'] > 0 for c in st.brute):
+                break
+        else:
+            ctx.count('E:skipped-large-mc')
+            continue
+        ctx.count(f'E:large-mc:{n_ev}')
+        ctx.case({'part': 'E', 'large': n_ev, 'seed': case['aim_seed']})
+        try:
+            g, b = st.fresh()
+        except Exception as ex:  # noqa: BLE001
+            ctx.violation('MCMultiDatasetSignalGenerator.__init__', 'large-mc:raises-' + type(ex).__name__, str(ex)[:200],
+                          case={'part': 'E', 'large': n_ev})
+            continue
+        if check_table(ctx, st, g, f'large-mc-{n_ev}'):
+            r, live = observe(env, g, case['aim_seed'], [40])
+            if r[0][0] == 'Ok':
+                check_events(ctx, st, b, live[0], 40, r[0][1], f'large-mc-{n_ev}')
+            else:
+                ctx.violation('MCMultiDatasetSignalGenerator.generate_signal_events', 'large-mc:raises-' + r[0][1], 'raises',
+                              case={'part': 'E', 'large': n_ev})
+
+
+def run_sites(ctx, exprs, checks):
+    import random as _random
+    rng = _random.Random(ctx.seed * 104729 + 18)
+    env = McEnv()
+    for f in (lambda: probe_analysis(ctx, env, rng, exprs, checks), lambda: probe_multi_change(ctx, env, rng),
+              lambda: probe_large_mc(ctx, env, rng)):
+        try:
+            f()
+        except Exception as ex:  # noqa: BLE001
+            import traceback
+            traceback.print_exc()
+            ctx.broken.append({'kind': 'harness', 'error': f'calling-site probes: {type(ex).__name__}: {ex}'})
+
+
 # =========================================================================== driver
 def evaluate(ctx, name, exprs, checks):
     if not exprs:
@@ -1427,6 +1647,8 @@ def evaluate(ctx, name, exprs, checks):
             compare_counts(ctx, case, impl, v)
         elif kind == 'reloc':
             compare_reloc(ctx, case, impl, v)
+        elif kind == 'analysis':
+            compare_analysis(ctx, case, impl, v)
         else:
             compare_mc(ctx, case, impl, v)
 
@@ -1441,10 +1663,23 @@ def run(ctx):
     exprs, checks = [], []
     run_counts(ctx, CountsEnv(), exprs, checks)
     run_relocation(ctx, exprs, checks)
+    run_sites(ctx, exprs, checks)
     evaluate(ctx, 'c18a', exprs, checks)
     exprs, checks = [], []
     env = McEnv()
     n_b = ctx.budget(36, 500)
+    # corpus (fixed seeds): validity window on a relocated field with first-pass rejections and redraws
+    import random as _random
+    hits0 = ctx.stats.get('B:relocated-field-range-with-first-pass-rejection', 0)
+    for cs in range(1800, 1900):
+        if ctx.stats.get('B:relocated-field-range-with-first-pass-rejection', 0) - hits0 >= 6:
+            break
+        crng = _random.Random(cs)
+        case = gen_mc_case(crng, small=True)
+        case.update(reloc_field=['dec', 'ra', 'sin_dec'][cs % 3], reloc_reject=[40, 60, 80][(cs // 3) % 3], reject=0,
+                    n_signal=13, poisson=False)
+        run_mc_case(ctx, env, case, exprs, checks)
+    ctx.count('B:corpus-relocated-range-cases', ctx.stats.get('B:relocated-field-range-with-first-pass-rejection', 0) - hits0)
     tried = 0
     while len(exprs) < n_b and tried < 6 * n_b:
         tried += 1
